@@ -309,6 +309,13 @@ EXTRA_PROGRAMS = [
     'while cond:  # w\n    a = 1  # a\n    b = 2  # b\nelse:\n    d = 4  # d\n    e = 5  # e\n    f = 6  # f\n\ndef fn():\n    if y:\n'
     '        p = 1  # p\n        q = 2  # q\n    else:\n        r = 3  # r\n        s = 4  # s\n    return p\n',
     'd = {k1: v1, k2: v2, **rest}  # d\ne = {**first, k: v,\n     k3: [1, 2],  # c\n     **last}\nf = {1: a, 2: b, 3: c}\ng = {**only}\n',
+    'zero = 0  # z\nno = False  # no\nempty = \'\'  # e\nraw = b\'\'  # b\nfz = 0.0\ncz = 0j  # cz\nnone = None\ndots = ...  # d\n'
+    'call(0, False, \'\', key=0.0)  # call\nmatch m:\n    case False:  # cf\n        r = 0  # r0\n    case None | True:\n        r = 1\n'
+    'def f(a=0, b=False, *, c=\'\', d=None):  # sig\n    return [0, 1, b\'\', 1.0, True]  # ret\n',
+    '@deco1  # d1\n@deco2(arg)\ndef fn[T, *Ts](a, b):  # sig\n    # lead x\n    x  =  1  # x\n    return x  # r\n\n'
+    '@cdeco\nclass K[T](Base1, Base2, metaclass=M, kw=1):  # k\n    # lead attr\n    attr  =  2  # attr\n    def m(self): pass  # m\n\n'
+    'with open(a) as f, lock, ctx() as c:  # w\n    # lead body\n    use(f,  c)  # use\n\nasync def af():\n    async with a as b, c:  # aw\n'
+    '        await  b  # ab\n\nclass Plain:  # p\n    y  =  3  # y\n\ndef nodeco(q):\n    return  q  # rq\n',
     'cfg = {\n    "a": 1,  # ca\n    "b": {"x": x, **inner},  # cb\n    **base,\n    "c": 3,\n}\nuse(cfg, {**p, **q}, {k: v})\n',
 ]
 
@@ -350,6 +357,34 @@ def foreign_pair(sess, rng, n=0):
     fa, fb = fields if rng.random() < 0.5 else fields[::-1]
     c = rng.randrange(2)
     return [getattr(o, fa)[c], getattr(o, fb)[c + 1]], f'{o.__class__.__name__}.{fa}[{c}],{fb}[{c + 1}]'
+
+
+HEADER_LISTS = ('decorator_list', 'type_params', 'bases', 'keywords', 'items')
+
+# value lattice of Constant.value (labels as in spec/ReconcilePrim.tla)
+CONST_LATTICE = [('None', None), ('False', False), ('True', True), ('0', 0), ('1', 1), ('0.0', 0.0), ('1.0', 1.0), ('0j', 0j),
+                 ('s', ''), ('sx', 'x'), ('b', b''), ('bx', b'x'), ('...', Ellipsis)]
+
+
+def const_label(v):
+    for lab, w in CONST_LATTICE:
+        if type(w) is type(v) and w == v:
+            return lab
+    return ''
+
+
+def pair_class(old, new):
+    """Input classification of a primitive change (same names as ReconcilePrim!PairClass)."""
+    try:
+        if old == new and type(old) is not type(new):
+            return 'eqval'
+    except Exception:  # noqa: BLE001
+        pass
+    if new is None:
+        return 'truthy2none' if old else 'falsy2none'
+    if old is None:
+        return 'none2truthy' if new else 'none2falsy'
+    return 'falsy2falsy' if not old and not new else 'other'
 
 
 SKIP_PRIM = {'kind', 'type_comment', 'simple', 'conversion', 'lineno', 'str', 'tag'}
@@ -500,7 +535,7 @@ class Mutator:
         if len(V) != n:
             return False
         had = any(k is None for k in K)
-        op = rng.choice(['delete', 'insert', 'insert_star', 'swap', 'dup', 'star', 'unstar'])
+        op = rng.choice(['delete', 'delete', 'insert', 'insert_star', 'swap', 'dup', 'star', 'unstar'])
 
         def ex():
             got = self.source('expr', o)
@@ -551,7 +586,8 @@ class Mutator:
             return True
         if 0.08 <= r < 0.13 and self.pair(nodes):
             return True
-        if 0.13 <= r < 0.19 and self.dict_pairs(nodes):
+        if 0.13 <= r < (0.40 if any(isinstance(n, ast.Dict) and None in n.keys for n, _ in nodes) else 0.19) and \
+                self.dict_pairs(nodes):
             return True
         for _ in range(30):
             strat = None
@@ -561,7 +597,7 @@ class Mutator:
                 groups = {}
                 for o, _p in nodes:
                     for f, t, qq in grammar.FIELDS.get(o.__class__.__name__, ()):
-                        if qq == '*' and t in grammar.STMTISH:
+                        if qq == '*' and (t in grammar.STMTISH or (isinstance(o, ast.stmt) and f in HEADER_LISTS)):
                             groups.setdefault((o.__class__.__name__, f), []).append((o, (f, t, qq)))
                 if groups:
                     strat = rng.choice(groups[rng.choice(sorted(groups))])
@@ -708,13 +744,33 @@ class Mutator:
                     continue
                 setattr(owner, field, new)
                 eqv = typ == 'constant' and new == val and type(new) is not type(val)   # e.g. True -> 1, 1 -> 1.0
+                if typ == 'constant' and (const_label(val) or const_label(new)):
+                    lat = f':{const_label(val) or "v"}>{const_label(new) or "v"}/{pair_class(val, new)}'
+                elif new is None or val is None:
+                    lat = f':{"None" if val is None else "v"}>{"None" if new is None else "v"}/{pair_class(val, new)}'
+                else:
+                    lat = ''
                 dotted = '/dotted' if kind == 'ImportFrom' and field == 'level' and '.' in (owner.module or '') else ''
                 if (kind, field) in (('ImportFrom', 'module'), ('alias', 'name')) and val and id(owner) in s.mpaths:
                     # a dotted name written with blanks / continuation lines around its dots (input classification)
                     seg = ast.get_source_segment(s.msrc, owner) or ''
                     if '.' in val and val not in seg:
                         dotted = '/spaced'
-                s.mutated('setprim_eq' if eqv else 'setprim', f'prim.{kind}.{field}{dotted}', [s.site(owner, field, 'self')], f'{kind}.{field} = {new!r}')
+                if kind == 'Constant' and id(owner) in s.mpaths and hasattr(owner, 'end_col_offset'):
+                    # input classification: the old literal touches an identifier / keyword character in the marked source
+                    # (`else''`, `''if x`) and the new literal starts / ends with one
+                    ls = s.msrc.split('\n')
+                    try:
+                        l0, l1 = ls[owner.lineno - 1], ls[owner.end_lineno - 1]
+                        before = l0[:_col(l0, owner.col_offset)][-1:]
+                        after = l1[_col(l1, owner.end_col_offset):][:1]
+                    except IndexError:
+                        before = after = ''
+                    text = '...' if new is Ellipsis else repr(new)
+                    ident = (lambda c: c.isalnum() or c == '_')
+                    if (before and ident(before) and ident(text[0])) or (after and ident(after) and ident(text[-1])):
+                        dotted += '/tight'
+                s.mutated('setprim_eq' if eqv else 'setprim', f'prim.{kind}.{field}{lat}{dotted}', [s.site(owner, field, 'self')], f'{kind}.{field} = {new!r}')
                 return True
         return False
 
@@ -722,11 +778,17 @@ class Mutator:
         rng = self.rng
         if typ == 'identifier':
             if val is None:
-                return NotImplemented if rng.random() < 0.7 else f'id{rng.randrange(50)}'
+                return NotImplemented if rng.random() < 0.5 else f'id{rng.randrange(50)}'
+            if q == '?' and rng.random() < 0.3:
+                return None                               # asname / ExceptHandler.name / keyword.arg / rest ... removed
             if isinstance(owner, (ast.alias, ast.ImportFrom)):
                 return f'mod{rng.randrange(50)}'
             return rng.choice([f'id{rng.randrange(50)}', val + '_x', 'z'])
         if typ == 'constant':
+            if isinstance(owner, ast.Constant) and rng.random() < 0.35:      # any other point of the value lattice
+                return rng.choice([w for _l, w in CONST_LATTICE if type(w) is not type(val) or w != val])
+            if isinstance(owner, ast.MatchSingleton):
+                return rng.choice([v for v in (True, False, None) if v is not val])
             if isinstance(val, (bool, int, float)) and val in (0, 1) and rng.random() < 0.6:
                 return rng.choice([v for v in (bool(val), int(val), float(val)) if type(v) is not type(val)])
             if isinstance(val, bool) or val is None or val is Ellipsis:
